@@ -20,18 +20,22 @@ EXPLANATION = ("PROVED (SMT, unbounded - every number of frames, detections per 
                "nodes_from_segmentation (labels unique across time, with and without a scale) creates exactly one node per non-zero label of every frame with the frame as its time, the label as seg id and "
                "the area and centroid of its own region measured with the given spacing, no edges, and files every frame's labels under the frame - so the frame mapping is proved for both constructions; the real _get_iou_dict (single segmentation, labels unique across time) "
                "records exactly the overlapping label pairs of consecutive frames with their IoU, and the real add_iou gives every candidate edge between consecutive frames the IoU of its two masks, 0 "
-               "without overlap, and changes nothing else (five more loop invariants). "
+               "without overlap, and changes nothing else (five more loop invariants); nodes_from_points_list is proved with and without a scale. "
+               "COMPOSITION (contracts/candcompose.py): the real compute_graph_from_seg and compute_graph_from_points_list are checked against the callees' contracts - every callee precondition is "
+               "discharged at its call site (the frame dictionary handed to add_cand_edges is exactly the one the node construction returns; add_iou gets nodes that are labels of their frames) - and "
+               "yield the property's statement: one node per detection with its time, seg id, area and centroid (scaled by the given spacing), an edge iff next frame and within the maximum distance, "
+               "and with iou=True the IoU of the two masks on every edge. "
                "BOUNDED STAND-IN (node construction, IoU, and end-to-end cross-check): real compute_graph_from_points_list on every placement of <= 4 "
                "points into frames 0..3 (all gap patterns, pair-gap-pair) with positions from {0,1,3} and two distances, and compute_graph_from_seg (+IoU) "
                "on random small label videos with empty frames, against a brute-force reference.")
 ASSUMPTIONS = ["distances are abstracted by an uninterpreted predicate close(a, b, r); floats are not reasoned about",
                "bounded stand-in: exhaustive/sampled over the stated finite space, not a proof"]
-NOT_UNDER_CONTRACT = ["nodes_from_points_list with a scale (numpy broadcasting; scale=None is proved)", "_compute_ious (numpy body: assumed contract + bounded)", "_get_iou_dict / add_iou with multiseg=True",
-                      "compute_graph_from_seg / compute_graph_from_points_list (compose the above)"]
+NOT_UNDER_CONTRACT = ["_compute_ious (numpy body: assumed contract, conformance-tested)", "_get_iou_dict / add_iou with multiseg=True (the composing function never passes it)"]
 
 
 def units(tier):
-    return candgraph.units()
+    from contracts import candcompose
+    return candgraph.units() + candcompose.units()
 
 
 def _bounded(tier, seed):
